@@ -3,9 +3,9 @@ package rules
 import (
 	"go/ast"
 	"go/constant"
-	"regexp"
 	"go/token"
 	"go/types"
+	"regexp"
 	"strings"
 
 	"jsverif/internal/core"
@@ -315,8 +315,8 @@ var _ = strings.TrimSpace
 
 // styleTable: comparisons with one annotation opener that legitimately ignore the other.
 var styleTable = map[string]string{
-	"notations/jschema/scanner.stateEndValue:InlineAnnotationBegin":                      "Len() mode only (guarded by lengthComputing): an inline annotation ends the line and thereby the measured schema; boundary search is property C15",
-	"(*rules/enum.scanner).stateEndValue:InlineAnnotationBegin":                          "Len() mode only (guarded by lengthComputing), as in the schema scanner",
+	"notations/jschema/scanner.stateEndValue:InlineAnnotationBegin":                             "Len() mode only (guarded by lengthComputing): an inline annotation ends the line and thereby the measured schema; boundary search is property C15",
+	"(*rules/enum.scanner).stateEndValue:InlineAnnotationBegin":                                 "Len() mode only (guarded by lengthComputing), as in the schema scanner",
 	"(*notations/jschema/scanner.Scanner).isInsideMultiLineAnnotation:MultiLineAnnotationBegin": "the question asked is precisely `is there an enclosing /* */`",
 }
 
